@@ -3,6 +3,7 @@ package c07
 import (
 	"bytes"
 	"fmt"
+	"sync"
 	"testing"
 
 	"github.com/jcmturner/gokrb5/v8/crypto"
@@ -77,10 +78,12 @@ func TestProp(t *testing.T) {
 	})
 	usageSweep(r)
 	wrongSizeKeys(r)
+	retained(r)
 	r.Exhaustive("checksum type x data length 0..200 x usage set; ids -200..200")
 	r.Require("usage_sweep_equal", 20000)
 	r.Require("wrong_size_key_never_verifies", 500)
 	r.Require("checksum_equal", 5000)
+	r.Require("retained_checksums_unchanged", 5000)
 	r.Require("verify_exact_true", 5000)
 	r.Require("neg_bitflip_false", 5000)
 	r.Require("neg_truncation_false", 500)
@@ -305,6 +308,100 @@ func wrongSizeKeys(r *vh.Run) {
 				}
 				r.Inc("wrong_size_key_never_verifies")
 			}
+		}
+	}
+}
+
+// retained: a checksum the library has returned belongs to the caller. Four goroutines per type compute checksums over data of
+// many lengths and keep the returned slices (not copies); after every 64 calls, and once more when all goroutines are done,
+// every slice kept must still hold the RFC value - whatever calls were made after it, by this goroutine or the others - and
+// the data and key handed in must be unmodified.
+func retained(r *vh.Run) {
+	rounds := 8
+	if vh.Thorough() {
+		rounds = 64
+	}
+	for _, ct := range cksumTypes {
+		ck := fmt.Sprintf("retained/type=%d", ct)
+		if !r.Mine(ck) {
+			continue
+		}
+		r.Eval(ck, true)
+		et := kcrypto.EtypeOfCksum[ct]
+		e, gerr := crypto.GetChksumEtype(ct)
+		if gerr != nil {
+			continue
+		}
+		type kept struct {
+			got, want []byte
+			usage     uint32
+			n         int
+		}
+		const G = 4
+		all := make([][]kept, G)
+		var bad [G]string
+		var wg sync.WaitGroup
+		check := func(g int, ks []kept, when string) bool {
+			for i, k := range ks {
+				if !bytes.Equal(k.got, k.want) {
+					bad[g] = fmt.Sprintf("checksum %d of goroutine %d (usage %d, %d bytes of data) was %x when returned and reads %x %s", i, g, k.usage, k.n, k.want, k.got, when)
+					return false
+				}
+			}
+			return true
+		}
+		for g := 0; g < G; g++ {
+			wg.Add(1)
+			go func(g int) {
+				defer wg.Done()
+				rnd := vh.NewRand("c07retained", ct, g)
+				key := pcommon.RefKey(rnd, et)
+				p, v, w := vh.Guard(func() {
+					for i := 0; i < rounds*64; i++ {
+						n := []int{0, 1, 16, 19, 64, 200, 1000, 1500, 5000}[rnd.Intn(9)]
+						data := rnd.Bytes(n)
+						usage := pcommon.UsageSet[rnd.Intn(len(pcommon.UsageSet))]
+						want, err := kcrypto.Checksum(et, key, usage, data)
+						if err != nil {
+							return
+						}
+						dc, kc := append([]byte{}, data...), append([]byte{}, key...)
+						got, err := e.GetChecksumHash(kc, dc, usage)
+						if err != nil || !bytes.Equal(got, want) {
+							continue // a wrong value is the business of the enumeration above
+						}
+						if !bytes.Equal(dc, data) || !bytes.Equal(kc, key) {
+							bad[g] = "GetChecksumHash modified the data or key it was given"
+							return
+						}
+						all[g] = append(all[g], kept{got, want, usage, n})
+						if i%64 == 63 && !check(g, all[g], "after later calls") {
+							return
+						}
+					}
+				})
+				if p {
+					bad[g] = "panic: " + v + " @ " + w
+				}
+			}(g)
+		}
+		wg.Wait()
+		total := 0
+		for g := 0; g < G; g++ {
+			if bad[g] == "" {
+				check(g, all[g], "after all goroutines have finished")
+			}
+			total += len(all[g])
+		}
+		failed := false
+		for g := 0; g < G; g++ {
+			if bad[g] != "" && !failed {
+				failed = true
+				r.Violation(fmt.Sprintf("C07|value|type=%d|changes-after-later-calls", ct), "a checksum returned by GetChecksumHash does not keep its value: "+bad[g], map[string]any{"case": ck, "type": ct})
+			}
+		}
+		if !failed {
+			r.Count("retained_checksums_unchanged", int64(total))
 		}
 	}
 }
